@@ -31,10 +31,11 @@ func (e *Engine) blockClosure() map[*ssa.Function]bool {
 }
 
 func runC07(e *Engine, r *Report, tier string) {
-	r.Explanation = "C07, necessary conditions only (state reachability is not decided; the ledger is per site, not per state). Closure: every fx-core function reachable through the module-scoped call graph (static calls, closures, interface calls resolved to fx-core implementers) from Begin/End/PreBlock entry points. R1 ledger of halt-capable sites in that closure — explicit panic(), calls to Must*/NewCoin/Uint64-style panicking helpers, divisions (Quo* of math.Int/LegacyDec, whose divisor must be a non-zero constant, a package-level value, or excluded from zero by a dominating guard on that very expression), single-value type assertions — each must be discharged by: D1 codec round trip (MustUnmarshal of a value read from a key family whose every writer marshals the same Go type), D2 address provenance (argument of a Must* bech32 parser is rooted only in address-typed sources: a proto field whose name ends in Address/`Sender`/`Receiver`, or AccAddress.String(); the generated String() of a whole proto message is a definite violation), D3 a dominating guard / error check that makes the bad case unreachable (panic in an `err != nil` branch of a call whose failure is excluded is NOT accepted: it stays a ledger entry), D4 a reviewed single-symbol exemption with its reason (table in the checker). R2 the slashing loops are siblings: each hands the iterated oracle's OracleAddress to the slash primitive, skips oracles that joined later, tests the confirmation map by external address and advances its cursor after the loop. R3 error returns of the gov EndBlocker come only from SDK-collection calls or checked fx-core calls (listed). Not decided: that every reachable state completes."
+	r.Explanation = "C07, necessary conditions only (state reachability is not decided; the ledger is per site, not per state). Closure: every fx-core function reachable through the module-scoped call graph (static calls, closures, interface calls resolved to fx-core implementers) from Begin/End/PreBlock entry points. R1 ledger of halt-capable sites in that closure — explicit panic(), calls to Must*/NewCoin/Uint64-style panicking helpers, divisions (Quo* of math.Int/LegacyDec, whose divisor must be a non-zero constant, a package-level value, or excluded from zero by a dominating guard on that very expression), single-value type assertions — each must be discharged by: D1 codec round trip (MustUnmarshal of a value read from a key family whose every writer marshals the same Go type), D2 address provenance (argument of a Must* bech32 parser is rooted only in address-typed sources: a proto field whose name ends in Address/`Sender`/`Receiver`, or AccAddress.String(); the generated String() of a whole proto message is a definite violation), D3 a dominating guard / error check that makes the bad case unreachable (panic in an `err != nil` branch of a call whose failure is excluded is NOT accepted: it stays a ledger entry), D4 a reviewed single-symbol exemption with its reason (table in the checker). R2 the slashing loops are siblings: each hands the iterated oracle's OracleAddress to the slash primitive, skips oracles that joined later, tests the confirmation map by external address and advances its cursor after the loop. R3 error returns of the gov EndBlocker come only from SDK-collection calls or fx-core helpers whose own errors come from storage/keeper APIs; R4 a proposal-queue entry is removed under the field values it was filed under: no store to those fields can reach the removal. Not decided: that every reachable state completes."
 	r.Rule("R1", "halt-capable sites in the block-processing closure are discharged (D1-D4)", 10, "sites found in the closure")
 	r.Rule("R2", "slashing loops agree (argument, start-height skip, confirm-map test, cursor)", 3, "callers of the slash primitive")
 	r.Rule("R3", "gov EndBlocker error returns classified", 1, "")
+	r.Rule("R4", "a queue entry is removed under the field values it was filed under (no rewrite of those fields can reach the removal)", 1, "queue removals in end-block callbacks keyed by record fields")
 
 	closure := e.blockClosure()
 	var fns []*ssa.Function
@@ -265,6 +266,73 @@ func runC07(e *Engine, r *Report, tier string) {
 			check(a)
 		}
 		r.Check(bad == "", "R3", e.FnKey(govEB), e.Pos(govEB.Pos()), "error returns come from SDK collections/keeper calls and the reviewed fx-core callees (Tally, failUnsupportedProposal)", "gov EndBlocker can return the error of an fx-core routine that was not reviewed as non-failing on stored data: "+bad+" (an EndBlock error halts the chain)")
+	}
+
+	// ---------- R4: queue removal uses the key the entry was filed under ----------
+	{
+		n4 := 0
+		for _, fn := range fns {
+			if !strings.HasSuffix(fnPkgPath(fn), "x/gov") && !strings.HasSuffix(fnPkgPath(fn), "x/gov/keeper") {
+				continue
+			}
+			allCalls(fn, func(c ssa.CallInstruction) {
+				if callName(c) != "Remove" || !strings.Contains(recvTypeName(c), "collections") {
+					return
+				}
+				// field loads feeding the key
+				var loads []*ssa.UnOp
+				for _, a := range nonCtxArgs(c) {
+					e.Slice(a, SliceOpts{MaxDepth: 8, ThroughCalls: true, ConstLeafOK: true}, func(x ssa.Value) Verdict {
+						if u, ok := x.(*ssa.UnOp); ok {
+							if _, ok := u.X.(*ssa.FieldAddr); ok {
+								loads = append(loads, u)
+							}
+						}
+						return Continue
+					})
+				}
+				if len(loads) == 0 {
+					return
+				}
+				n4++
+				ck := e.FnKey(fn) + " " + regNames.ReplaceAllString(vkey(c.Common().Args[0], 0), "") + ".Remove key"
+				bad := ""
+				for _, ld := range loads {
+					fa := ld.X.(*ssa.FieldAddr)
+					fname, ft, _ := fieldName(fa)
+					allInstrs(fn, func(i ssa.Instruction) {
+						st, ok := i.(*ssa.Store)
+						if !ok {
+							return
+						}
+						fa2, ok := st.Addr.(*ssa.FieldAddr)
+						if !ok {
+							return
+						}
+						n2, t2, _ := fieldName(fa2)
+						if n2 != fname || namedTypeName(t2) != namedTypeName(ft) {
+							return
+						}
+						// a store of a value taken from the walk key itself re-states what the entry is filed under
+						fromKey := false
+						if len(fn.Params) > 0 {
+							if kc, ok := stripConv(st.Val).(*ssa.Call); ok && (callName(kc) == "K1" || callName(kc) == "K2") {
+								if a := callArgs(kc); len(a) == 1 && stripConv(a[0]) == ssa.Value(fn.Params[0]) {
+									fromKey = true
+								}
+							}
+						}
+						if !fromKey && canReach(st, ld) {
+							bad = fname
+						}
+					})
+				}
+				r.Check(bad == "", "R4", ck, e.InstrPos(c), "the key is built from record fields that are not rewritten before the removal", "the queue entry is removed under a key read from field "+bad+" after that field may have been rewritten: the entry filed under the old value stays in the queue, and when its record is gone the end blocker returns `not found` on every block")
+			})
+		}
+		if n4 == 0 {
+			r.Fail("R4", "queue removals", "", "UNRESOLVED-ANCHOR: no queue removal keyed by record fields in the gov end blocker")
+		}
 	}
 }
 
